@@ -12,6 +12,8 @@ import (
 	"rscheck/cfgq"
 	"rscheck/core"
 	"rscheck/driver"
+	"rscheck/flow"
+	"rscheck/lin"
 	"rscheck/pat"
 	"rscheck/rules/ring"
 )
@@ -126,11 +128,11 @@ func Run(c *core.Ctx) {
 	reader(c)
 
 	// ---- R6
-	ring.ClampFunc(c, "R6.ring", c.Func(pkg, "", "roffset"), ring.ClampSpec{
+	ring.ClampFlow(c, "R6.ring", c.Func(pkg, "", "roffset"), ring.ClampSpec{
 		Params: []string{"blen", "size", "rpos", "wpos"}, Offset: "rpos",
 		Clamps: []string{"_wpos - _rpos", "_size - _offset"},
 	})
-	ring.ClampFunc(c, "R6.ring", c.Func(pkg, "", "woffset"), ring.ClampSpec{
+	ring.ClampFlow(c, "R6.ring", c.Func(pkg, "", "woffset"), ring.ClampSpec{
 		Params: []string{"blen", "size", "wpos"}, Offset: "wpos",
 		Clamps: []string{"_size", "_size - _offset"},
 	})
@@ -246,8 +248,7 @@ func r2read(c *core.Ctx, fn *core.Fn) {
 			"Wait must be reachable only when the store returned no bytes and no error (o equals the write position)", w1...)
 		dom, w2 := g.Dominated(wp, func(n ast.Node) bool { return n == ast.Node(as) })
 		c.Check("R2.wake", "readSomeAt/wait-after-store-attempt", wn.Pos(), dom, "the store read must be attempted before sleeping", w2...)
-		next := wp.B.Nodes[wp.I+1:]
-		c.Check("R2.wake", "readSomeAt/return-after-wait", wn.Pos(), len(next) > 0 && pat.Stmt("return 0, nil").Match(info, next[0], nil) != nil,
+		c.Check("R2.wake", "readSomeAt/return-after-wait", wn.Pos(), ring.AfterWaitReturnsZero(info, wp, binds),
 			"after Wait the function returns (0, nil) so that ReadAt re-examines the state (including a close) under the lock")
 	}
 	// closed backlog: store == nil => ErrClosedBacklog before anything else
@@ -256,27 +257,17 @@ func r2read(c *core.Ctx, fn *core.Fn) {
 		return pat.Expr("_p.store != nil").Match(info, f.Expr, nil) != nil && f.Val || pat.Expr("_p.store == nil").Match(info, f.Expr, nil) != nil && !f.Val
 	})
 	c.Check("R2.wake", "readSomeAt/store-open-before-read", as.Pos(), ok, "the store is consulted only after it was found non-nil", w...)
-	// ReadAt loops
-	ra := c.Func(pkg, "Backlog", "ReadAt")
-	if ra != nil {
-		k := 0
-		core.Inspect(ra.Decl.Body, func(m ast.Node) bool {
-			call, ok := m.(*ast.CallExpr)
-			if !ok || core.CalleeFunc(info, call) != fn.Obj {
-				return true
-			}
-			k++
-			inLoop := false
-			for _, pn := range core.PathTo(ra.Decl.Body, call) {
-				if fs, ok := pn.(*ast.ForStmt); ok && fs.Cond == nil {
-					inLoop = true
-				}
-			}
-			c.Check("R2.wake", "ReadAt/loops", call.Pos(), inLoop, "ReadAt must retry readSomeAt in an unconditional loop: a wake-up returns (0,nil)")
-			return true
-		})
-		if k == 0 {
+	// ReadAt retries after a wake-up
+	if ra := c.Func(pkg, "Backlog", "ReadAt"); ra != nil {
+		var bufObj types.Object
+		if ps := ra.Decl.Type.Params; ps != nil && len(ps.List) > 0 && len(ps.List[0].Names) > 0 {
+			bufObj = info.Defs[ps.List[0].Names[0]]
+		}
+		n, w := ring.RetriesOnWake(cfgq.Of(c.Program, ra), fn.Obj, bufObj)
+		if n == 0 {
 			c.Undecidedf("R2.wake", "ReadAt/loops", ra.Decl.Pos(), "ReadAt does not call readSomeAt")
+		} else {
+			c.Check("R2.wake", "ReadAt/loops", ra.Decl.Pos(), w == nil, "ReadAt must call readSomeAt again after a wake-up (which returns (0,nil)) unless the buffer is empty; otherwise a reader parked at the write position sees a spurious (0,nil)", w...)
 		}
 	}
 }
@@ -310,7 +301,6 @@ func stores(c *core.Ctx, tn string) {
 	// readSomeAt
 	if fn := c.Func(pkg, tn, "readSomeAt"); fn != nil {
 		info := fn.Pkg.TypesInfo
-		g := cfgq.Of(c.Program, fn)
 		body := fn.Decl.Body
 		var params []*ast.Ident
 		for _, f := range fn.Decl.Type.Params.List {
@@ -320,86 +310,93 @@ func stores(c *core.Ctx, tn string) {
 			c.Undecidedf("R5.sibling", tn+".readSomeAt/params", fn.Decl.Pos(), "expected (b, rpos)")
 			return
 		}
-		pb := pat.Binds{"_b": params[0], "_rpos": params[1]}
-		call, b := pat.Stmt("_maxlen, _offset = roffset(len(_b), _p.size, _rpos, _p.wpos)").Find(info, body, pb)
-		c.Check("R5.sibling", tn+".readSomeAt/roffset-args", fn.Decl.Pos(), call != nil, "calls roffset(len(b), p.size, rpos, p.wpos) with the arguments in parameter order")
-		if call == nil {
-			return
-		}
-		var src ast.Node
-		var b2 pat.Binds
-		for _, p := range []*pat.Pattern{
-			pat.Stmt("_n = copy(_b, _p._store[_offset:_offset+_maxlen])"),
-			pat.Stmt("_n, _err = _p._store.ReadAt(_b[:_maxlen], int64(_offset))"),
-		} {
-			if src == nil {
-				src, b2 = p.Find(info, body, b)
-			}
-		}
-		c.Check("R5.sibling", tn+".readSomeAt/transfer-window", fn.Decl.Pos(), src != nil, "the bytes returned are exactly [offset, offset+maxlen) of the backing store, i.e. the bytes written at rpos onward")
+		res := ring.Transfer(c, fn, ring.TransferSpec{Rule: "R5.sibling", Key: tn + ".readSomeAt", OffsetFn: "roffset",
+			Args: []string{"len(_b)", "_p.size", "_" + params[1].Name, "_p.wpos"}, ArgsDesc: "roffset(len(b), p.size, rpos, p.wpos)", Read: true,
+			ArgsKey: "roffset-args", WindowKey: "transfer-window",
+			WindowMsg: "the bytes returned are exactly [offset, offset+maxlen) of the backing store, i.e. the bytes written at rpos onward"})
 		// no position write
-		w1, _ := pat.Stmt("_p.wpos = _x").Find(info, body, nil)
-		w2, _ := pat.Stmt("_p.wpos += _x").Find(info, body, nil)
-		c.Check("R5.sibling", tn+".readSomeAt/no-position-write", fn.Decl.Pos(), w1 == nil && w2 == nil, "a read never moves the write position")
+		c.Check("R5.sibling", tn+".readSomeAt/no-position-write", fn.Decl.Pos(), len(ring.FrozenField(c, fn, "wpos")) == 0, "a read never moves the write position")
 		// R3 validity before data
-		if src != nil {
-			sp, ok := g.Find(src)
-			cp, ok2 := g.Find(call)
-			if ok && ok2 {
-				for _, p := range []cfgq.Point{sp, cp} {
-					for _, fact := range []struct{ key, t, f string }{
-						{"beyond-write-position", "_rpos <= _p.wpos", "_rpos > _p.wpos"},
-						{"overwritten", "_rpos+_p.size >= _p.wpos", "_rpos+_p.size < _p.wpos"},
-					} {
+		if res != nil && res.Transfer != nil && res.Offset != nil {
+			recv := res.Binds["_p"]
+			rpos := ast.Expr(params[1])
+			sel := func(field string) ast.Expr {
+				var hit ast.Expr
+				core.Inspect(body, func(n ast.Node) bool {
+					if s, ok := n.(*ast.SelectorExpr); ok && hit == nil && s.Sel.Name == field && pat.Same(info, s.X, recv) {
+						hit = s
+					}
+					return true
+				})
+				return hit
+			}
+			wpos, size := sel("wpos"), sel("size")
+			if wpos == nil || size == nil {
+				c.Undecidedf("R3.valid", tn+".readSomeAt/fields", fn.Decl.Pos(), "readSomeAt does not mention p.wpos and p.size")
+			} else {
+				notBeyond := lin.Combo(info, 0, 1, rpos, -1, wpos)                // rpos - wpos <= 0
+				notOverwritten := lin.Combo(info, 0, 1, wpos, -1, rpos, -1, size) // wpos - rpos - size <= 0
+				for _, p := range []struct {
+					what string
+					site flow.Site
+				}{{"storage read", *res.Transfer}, {"roffset call", res.Offset.Site}} {
+					for _, fact := range []struct {
+						key  string
+						form lin.Form
+					}{{"beyond-write-position", notBeyond}, {"overwritten", notOverwritten}} {
 						fact := fact
-						okv, w := g.OnlyViaFact(p, func(f cfgq.Fact) bool {
-							return pat.Expr(fact.t).Match(info, f.Expr, b2) != nil && f.Val || pat.Expr(fact.f).Match(info, f.Expr, b2) != nil && !f.Val
+						okv := res.E.Under(p.site, func(f cfgq.Fact) bool {
+							cmp, ok := lin.CmpOf(info, f.Expr, f.Val)
+							return ok && cmp.Is(fact.form, token.LEQ)
 						})
-						what := "storage read"
-						if p == cp {
-							what = "roffset call"
-						}
-						c.Check("R3.valid", tn+".readSomeAt/"+fact.key+"/"+what, p.Node().Pos(), okv,
-							"an offset that is "+fact.key+" must be rejected before any byte is read: otherwise other bytes than those written at that offset are returned", w...)
+						c.Check("R3.valid", tn+".readSomeAt/"+fact.key+"/"+p.what, p.site.At.Node().Pos(), okv,
+							"an offset that is "+fact.key+" must be rejected before any byte is read: otherwise other bytes than those written at that offset are returned")
 					}
 				}
 			}
-			_ = b2
 		}
-		inv, _ := pat.Stmt("return 0, _f(ErrInvalidOffset)").Find(info, body, nil)
-		inv2, _ := pat.Stmt("return 0, ErrInvalidOffset").Find(info, body, nil)
-		c.Check("R3.valid", tn+".readSomeAt/invalid-offset-error", fn.Decl.Pos(), inv != nil || inv2 != nil, "the rejection reports ErrInvalidOffset")
+		inv := false
+		core.Inspect(body, func(n ast.Node) bool {
+			if ret, ok := n.(*ast.ReturnStmt); ok && len(ret.Results) == 2 {
+				core.Inspect(ret.Results[1], func(m ast.Node) bool {
+					if id, ok := m.(*ast.Ident); ok && id.Name == "ErrInvalidOffset" {
+						inv = true
+					}
+					return true
+				})
+			}
+			return true
+		})
+		if !inv {
+			// the rejection may live in a helper
+			for _, h := range helpersOf(c, fn) {
+				core.Inspect(h.Decl.Body, func(m ast.Node) bool {
+					if id, ok := m.(*ast.Ident); ok && id.Name == "ErrInvalidOffset" {
+						inv = true
+					}
+					return true
+				})
+			}
+		}
+		c.Check("R3.valid", tn+".readSomeAt/invalid-offset-error", fn.Decl.Pos(), inv, "the rejection reports ErrInvalidOffset")
 		c.Check("R3.valid", tn+".readSomeAt/closed-store", fn.Decl.Pos(), closedGuard(info, body), "a nil backing store yields ErrClosedBacklog first")
-		zero, okz := findIf(info, body, pat.Expr("_maxlen == 0"), b)
-		okZero := false
-		if okz {
-			r, _ := pat.Stmt("return 0, nil").Find(info, zero.Body, nil)
-			okZero = r != nil
+		switch v, why := ring.ZeroGuard(c, res); v {
+		case 1:
+			c.Okf("R5.sibling", tn+".readSomeAt/empty-returns-zero", fn.Decl.Pos(), "nothing to read yields (0, nil)")
+		case 0:
+			c.Failf("R5.sibling", tn+".readSomeAt/empty-returns-zero", fn.Decl.Pos(), "nothing to read at the write position yields (0, nil) so that the caller waits; %s", why)
+		default:
+			c.Undecidedf("R5.sibling", tn+".readSomeAt/empty-returns-zero", fn.Decl.Pos(), "nothing to read at the write position yields (0, nil) so that the caller waits: %s", why)
 		}
-		c.Check("R5.sibling", tn+".readSomeAt/empty-returns-zero", fn.Decl.Pos(), okZero, "nothing to read at the write position yields (0, nil) so that the caller waits")
 	}
 	if fn := c.Func(pkg, tn, "writeSome"); fn != nil {
 		info := fn.Pkg.TypesInfo
 		body := fn.Decl.Body
-		call, b := pat.Stmt("_maxlen, _offset = woffset(len(_b), _p.size, _p.wpos)").Find(info, body, nil)
-		c.Check("R5.sibling", tn+".writeSome/woffset-args", fn.Decl.Pos(), call != nil, "calls woffset(len(b), p.size, p.wpos) with the arguments in parameter order")
-		if call != nil {
-			var src ast.Node
-			var b2 pat.Binds
-			for _, p := range []*pat.Pattern{
-				pat.Stmt("_n = copy(_p._store[_offset:_offset+_maxlen], _b)"),
-				pat.Stmt("_n, _err = _p._store.WriteAt(_b[:_maxlen], int64(_offset))"),
-			} {
-				if src == nil {
-					src, b2 = p.Find(info, body, b)
-				}
-			}
-			c.Check("R5.sibling", tn+".writeSome/transfer-window", fn.Decl.Pos(), src != nil, "the bytes go to exactly [offset, offset+maxlen) of the backing store from the front of the caller's buffer")
-			if src != nil {
-				adv, _ := pat.Stmt("_p.wpos += uint64(_n)").Find(info, body, b2)
-				c.Check("R5.sibling", tn+".writeSome/advance-wpos", fn.Decl.Pos(), adv != nil, "wpos advances by exactly the number of bytes stored (absolute offsets stay aligned with ring positions)")
-			}
-		}
+		ring.Transfer(c, fn, ring.TransferSpec{Rule: "R5.sibling", Key: tn + ".writeSome", OffsetFn: "woffset",
+			Args: []string{"len(_b)", "_p.size", "_p.wpos"}, ArgsDesc: "woffset(len(b), p.size, p.wpos)", Read: false, Advance: "wpos",
+			ArgsKey: "woffset-args", WindowKey: "transfer-window", AdvKey: "advance-wpos",
+			WindowMsg: "the bytes go to exactly [offset, offset+maxlen) of the backing store from the front of the caller's buffer",
+			AdvMsg:    "wpos advances by exactly the number of bytes stored (absolute offsets stay aligned with ring positions)"})
 		c.Check("R5.sibling", tn+".writeSome/closed-store", fn.Decl.Pos(), closedGuard(info, body), "a nil backing store yields ErrClosedBacklog")
 	}
 	if fn := c.Func(pkg, tn, "dataRange"); fn != nil {
@@ -564,20 +561,104 @@ func reader(c *core.Ctx) {
 	if fn := c.Func(pkg, "Reader", "IsValid"); fn != nil {
 		info := fn.Pkg.TypesInfo
 		body := fn.Decl.Body
-		as, b := pat.Stmt("_rpos, _wpos, _err = _r.DataRange()").Find(info, body, nil)
-		ok := false
-		if as != nil {
-			n, _ := pat.Stmt("return _r.seek >= _rpos && _r.seek <= _wpos").Find(info, body, b)
-			ok = n != nil
+		// the data range in use: `lo, hi, err := <reader or backlog>.DataRange()`
+		var lo, hi, errID *ast.Ident
+		core.Inspect(body, func(n ast.Node) bool {
+			as, ok := n.(*ast.AssignStmt)
+			if !ok || len(as.Lhs) != 3 || len(as.Rhs) != 1 || lo != nil {
+				return true
+			}
+			call, ok := ast.Unparen(as.Rhs[0]).(*ast.CallExpr)
+			if !ok {
+				return true
+			}
+			if f := core.CalleeFunc(info, call); f != nil && f.Name() == "DataRange" && f.Pkg() == fn.Obj.Pkg() {
+				a, ok1 := as.Lhs[0].(*ast.Ident)
+				b, ok2 := as.Lhs[1].(*ast.Ident)
+				e, ok3 := as.Lhs[2].(*ast.Ident)
+				if ok1 && ok2 && ok3 {
+					lo, hi, errID = a, b, e
+				}
+			}
+			return true
+		})
+		var seek ast.Expr
+		core.Inspect(body, func(n ast.Node) bool {
+			if sel, ok := n.(*ast.SelectorExpr); ok && seek == nil && core.IsFieldNamed(info, sel, "Reader", "seek") {
+				seek = sel
+			}
+			return true
+		})
+		if lo == nil || seek == nil {
+			c.Undecidedf("R4.range", "Reader.IsValid/formula", fn.Decl.Pos(), "IsValid does not obtain (rpos, wpos, err) from DataRange() and compare the reader's seek with it in a recognisable way")
+		} else {
+			errObj := core.ObjOf(info, errID)
+			loLeq := lin.Combo(info, 0, 1, lo, -1, seek) // rpos - seek <= 0
+			hiGeq := lin.Combo(info, 0, 1, seek, -1, hi) // seek - wpos <= 0
+			otherRelation := ""
+			sameVars := func(a, b lin.Form) bool {
+				if len(a.Coef) != len(b.Coef) {
+					return false
+				}
+				for k, v := range a.Coef {
+					if w, ok := b.Coef[k]; !ok || (w != v && w != -v) {
+						return false
+					}
+				}
+				return true
+			}
+			atom := func(x ast.Expr) (int, bool, bool) {
+				if isNil, ok := ring.ErrNilAtom(info, x, errObj); ok {
+					return 0, !isNil, true
+				}
+				defer func() {
+					if cmp, ok := lin.CmpOf(info, x, true); ok && otherRelation == "" {
+						for _, f := range []lin.Form{loLeq, hiGeq} {
+							if sameVars(cmp.F, f) && !cmp.Is(f, token.LEQ) {
+								if neg, ok2 := lin.CmpOf(info, x, false); !ok2 || !neg.Is(f, token.LEQ) {
+									otherRelation = c.Src(x)
+								}
+							}
+						}
+					}
+				}()
+				for i, f := range []lin.Form{loLeq, hiGeq} {
+					if cmp, ok := lin.CmpOf(info, x, true); ok && cmp.Is(f, token.LEQ) {
+						return i + 1, false, true
+					}
+					if cmp, ok := lin.CmpOf(info, x, false); ok && cmp.Is(f, token.LEQ) {
+						return i + 1, true, true
+					}
+				}
+				return 0, false, false
+			}
+			table := ring.TruthTable(cfgq.Of(c.Program, fn), 3, atom)
+			okFormula, okClosed, undec := true, true, false
+			for m, v := range table {
+				errNil, ge, le := m&1 != 0, m&2 != 0, m&4 != 0
+				if v < 0 {
+					// with a non-nil error the range values are meaningless: the comparison atoms need not be decided
+					undec = true
+					continue
+				}
+				want := errNil && ge && le
+				if (v == 1) != want {
+					if !errNil {
+						okClosed = false
+					} else {
+						okFormula = false
+					}
+				}
+			}
+			if otherRelation != "" {
+				c.Failf("R4.range", "Reader.IsValid/formula", fn.Decl.Pos(), "a reader is valid exactly while rpos <= seek <= wpos of the current data range; IsValid tests `%s`, which is neither of these bounds (a reader exactly at a bound is judged wrongly)", otherRelation)
+			} else if undec {
+				c.Undecidedf("R4.range", "Reader.IsValid/formula", fn.Decl.Pos(), "IsValid depends on something else than err == nil, rpos <= seek and seek <= wpos")
+			} else {
+				c.Check("R4.range", "Reader.IsValid/formula", fn.Decl.Pos(), okFormula, "a reader is valid exactly while rpos <= seek <= wpos of the current data range")
+				c.Check("R4.range", "Reader.IsValid/closed-is-invalid", fn.Decl.Pos(), okClosed, "a closed backlog makes every reader invalid")
+			}
 		}
-		c.Check("R4.range", "Reader.IsValid/formula", fn.Decl.Pos(), ok, "a reader is valid exactly while rpos <= seek <= wpos of the current data range")
-		errRet, _ := findIf(info, body, pat.Expr("_err != nil"), b)
-		okErr := false
-		if errRet != nil {
-			r, _ := pat.Stmt("return false").Find(info, errRet.Body, nil)
-			okErr = r != nil
-		}
-		c.Check("R4.range", "Reader.IsValid/closed-is-invalid", fn.Decl.Pos(), okErr, "a closed backlog makes every reader invalid")
 	}
 	if fn := c.Func(pkg, "Reader", "Read"); fn != nil {
 		info := fn.Pkg.TypesInfo
@@ -633,4 +714,23 @@ func closedGuard(info *types.Info, body *ast.BlockStmt) bool {
 	}
 	r, _ := pat.Stmt("return 0, _f(ErrClosedBacklog)").Find(info, ifs.Body, nil)
 	return r != nil
+}
+
+// helpersOf lists the same-package functions called from fn (one level).
+func helpersOf(c *core.Ctx, fn *core.Fn) []*core.Fn {
+	info := fn.Pkg.TypesInfo
+	var out []*core.Fn
+	seen := map[*types.Func]bool{}
+	core.Inspect(fn.Decl.Body, func(n ast.Node) bool {
+		if call, ok := n.(*ast.CallExpr); ok {
+			if f := core.CalleeFunc(info, call); f != nil && f.Pkg() == fn.Obj.Pkg() && !seen[f] {
+				seen[f] = true
+				if h := c.FnOf(f); h != nil && h.Decl.Body != nil {
+					out = append(out, h)
+				}
+			}
+		}
+		return true
+	})
+	return out
 }
